@@ -228,6 +228,15 @@ def replay_l161(cfg, m, extra=None):
     got = r.getRoute('GET', path)
     if (got is not None) != matched:
         return True, 'getRoute disagrees with its own regex'
+    names = [v for kk, v in parts if kk != 'lit']
+    try:
+        tokens = list(r.patternToRegex(pattern)[1])
+    except Exception as ex:
+        return True, 'patternToRegex(%r) raised %r' % (pattern, ex)
+    if tokens != names:
+        return True, 'pattern %s: parameter names reported as %r, expected %r' % (pattern, tokens, names)
+    if got is not None and sorted(got[1].keys()) != sorted(names):
+        return True, 'pattern %s path %r: bindings reported under %r, expected the names %r' % (pattern, path, sorted(got[1].keys()), names)
     if in_must and not matched:
         return True, 'pattern %s does not match %r although the documented rule says it does' % (pattern, path)
     if matched:
